@@ -2,6 +2,19 @@
 import json
 
 
+RAW_WRITE_FNS = {
+    "std::ptr::copy_nonoverlapping", "std::intrinsics::copy_nonoverlapping", "std::ptr::copy", "std::intrinsics::copy",
+    "std::ptr::write", "std::ptr::write_volatile", "std::ptr::write_unaligned", "std::ptr::write_bytes",
+    "std::ptr::mut_ptr::<impl *mut T>::write", "std::ptr::mut_ptr::<impl *mut T>::write_bytes",
+    "std::ptr::mut_ptr::<impl *mut T>::write_volatile", "std::ptr::mut_ptr::<impl *mut T>::write_unaligned",
+    "std::ptr::mut_ptr::<impl *mut T>::copy_from", "std::ptr::mut_ptr::<impl *mut T>::copy_from_nonoverlapping",
+    "std::ptr::const_ptr::<impl *const T>::copy_to", "std::ptr::const_ptr::<impl *const T>::copy_to_nonoverlapping",
+    "std::ptr::mut_ptr::<impl *mut T>::copy_to", "std::ptr::mut_ptr::<impl *mut T>::copy_to_nonoverlapping",
+    "std::ptr::swap", "std::ptr::swap_nonoverlapping", "std::ptr::replace", "std::ptr::mut_ptr::<impl *mut T>::swap",
+    "std::ptr::mut_ptr::<impl *mut T>::replace", "std::slice::from_raw_parts_mut", "std::ptr::slice_from_raw_parts_mut",
+}
+
+
 class Facts:
     def __init__(self, data, path=None):
         self.data = data
@@ -33,6 +46,44 @@ class Facts:
 
     def find_fns(self, suffix):
         return [b for b in self.fn_bodies() if b["path"] == suffix or b["path"].endswith("::" + suffix)]
+
+    def callees_of(self, body):
+        out = []
+        for blk in body["blocks"]:
+            t = blk["term"]
+            if t["k"] == "call" and t["callee"]["k"] == "def":
+                c = t["callee"]
+                r = c.get("resolved")
+                out.append(((r["path"] if r else c["path"]), c["foreign"], (r["local"] if r else c["local"]), t))
+            elif t["k"] == "call":
+                out.append(("<indirect>", False, False, t))
+            elif t["k"] == "asm":
+                out.append(("<asm>", True, False, t))
+        return out
+
+    def effectful(self, path, _seen=None):
+        """Does crate function `path` (transitively through crate-local callees) reach a foreign call, inline asm or a raw
+        memory write primitive?"""
+        if not hasattr(self, "_eff"):
+            self._eff = {}
+        if path in self._eff:
+            return self._eff[path]
+        seen = _seen or set()
+        if path in seen:
+            return False
+        seen.add(path)
+        body = self.body(path)
+        res = False
+        if body is not None:
+            for name, foreign, local, t in self.callees_of(body):
+                if foreign or name in RAW_WRITE_FNS or name == "<asm>":
+                    res = True
+                    break
+                if local and self.body(name) is not None and self.effectful(name, seen):
+                    res = True
+                    break
+        self._eff[path] = res
+        return res
 
     def impls_of(self, trait):
         return [i for i in self.impls if i["trait"] == trait]
